@@ -163,7 +163,7 @@ fn mk_token(sc: &mut Sc, spec: &TokSpec) -> Option<Tok> {
 // ----- attacker-side crypto (the chacha20poly1305 crate directly) -----------------------------
 
 fn seq_bytes_required(seq: u64) -> usize {
-    (0..8).rev().find(|i| (seq >> (8 * i)) & 0xff != 0).map(|i| i + 1).unwrap_or(0)
+    (0..8).rev().find(|i| (seq >> (8 * i)) & 0xff != 0).map(|i| i + 1).unwrap_or(1)
 }
 
 fn nc_aad(prefix: u8, proto: u64) -> Vec<u8> {
@@ -1708,7 +1708,7 @@ fn script_wire(rng: &mut Rng, tier: Tier, f: &mut dyn FnMut(&str) -> String) {
 // profile 0: nc-regress — one fixed op list per repaired defect (deterministic, run on every check)
 // =============================================================================================
 
-const REGRESS_CASES: usize = 10;
+const REGRESS_CASES: usize = 11;
 
 fn regress_script(case: usize, f: &mut dyn FnMut(&str) -> String) {
     let mut rng = Rng::new(0xD1CE + case as u64);
@@ -1871,6 +1871,33 @@ fn regress_script(case: usize, f: &mut dyn FnMut(&str) -> String) {
             sc.op("srv-dump 0");
             sc.op(&format!("srv-updc 0 {}", cls[0].tok.spec.id));
         }
+        // a pending entry left by another token on the same address must not block a later handshake
+        10 => {
+            let a = cls[0].addr.clone();
+            if let (_, Some(k)) = sc.opd("cli-upd 0 0") {
+                let req = sc.hist[k].bytes.clone();
+                sc.op(&format!("srv-rx 0 {} {}", a, hex(&req))); // challenge for token 1, never answered
+            }
+            sc.op("srv-dump 0");
+            if let (_, Some(k)) = sc.opd("cli-upd 1 0") {
+                let req = sc.hist[k].bytes.clone();
+                if let (_, Some(k)) = sc.opd(&format!("srv-rx 0 {} {}", a, hex(&req))) {
+                    let chal = sc.hist[k].bytes.clone();
+                    sc.op("srv-dump 0");
+                    sc.op(&format!("cli-rx 1 {}", hex(&chal)));
+                    if let (_, Some(k)) = sc.opd("cli-upd 1 0") {
+                        let resp = sc.hist[k].bytes.clone();
+                        sc.op("note expect-connected:handshake-blocked-by-stale-pending");
+                        if let (_, Some(k)) = sc.opd(&format!("srv-rx 0 {} {}", a, hex(&resp))) {
+                            let ka = sc.hist[k].bytes.clone();
+                            sc.op(&format!("cli-rx 1 {}", hex(&ka)));
+                        }
+                    }
+                }
+            }
+            sc.op("cli-dump 1");
+            sc.op("srv-dump 0");
+        }
         // sequence 2^64-1 (the window's EMPTY sentinel) from the owner of a session
         _ => {
             fast_connect(&mut sc, &cls[0]);
@@ -1885,9 +1912,69 @@ fn regress_script(case: usize, f: &mut dyn FnMut(&str) -> String) {
     }
 }
 
+
+// =============================================================================================
+// profile nc-known — the one recorded finding (C04): a connect token may be used again from the same
+// address, so a recorded handshake re-establishes a finished session and its old traffic is surfaced again
+// =============================================================================================
+
+fn known_script(_case: usize, f: &mut dyn FnMut(&str) -> String) {
+    let mut rng = Rng::new(0xC04);
+    let rng = &mut rng;
+    let mut sc = Sc::new(f);
+    let key = k32(rng);
+    let ckey = k32(rng);
+    let proto = 7u64;
+    sc.op(&format!("srv-new 0 5000000 2 {} 1 {} {} {}", proto, hex(&key), hex(&ckey), SRV_A));
+    let addr = a4(10, 9, 1, 1, 4911);
+    let mut spec = base_spec(rng, 77, proto, key, 5, SRV_A);
+    spec.expire = 35;
+    spec.seal_expire = 35;
+    spec.timeout = 5;
+    let cl = match new_client(&mut sc, 0, &addr, &spec, 5_000_000) {
+        Some(c) => c,
+        None => return,
+    };
+    sc.op("note setup-done");
+    if !fast_connect(&mut sc, &cl) {
+        return;
+    }
+    let req = sc.hist[0].bytes.clone();
+    let resp = sc.hist[2].bytes.clone();
+    // payload P: generated once, surfaced once
+    let p = match sc.opd("cli-pay 0 50415951") {
+        (_, Some(k)) => sc.hist[k].bytes.clone(),
+        _ => return,
+    };
+    sc.op(&format!("srv-rx 0 {} {}", addr, hex(&p)));
+    // a replay inside the session is refused
+    hostile_srv(&mut sc, "hostile", &addr, &p);
+    // the session ends
+    if let (_, Some(k)) = sc.opd("cli-disc 0") {
+        let d = sc.hist[k].bytes.clone();
+        sc.op(&format!("srv-rx 0 {} {}", addr, hex(&d)));
+    }
+    sc.op("srv-dump 0");
+    // the recorded request and response re-establish it (same token, same address) …
+    sc.op(&format!("srv-rx 0 {} {}", addr, hex(&req)));
+    sc.op(&format!("srv-rx 0 {} {}", addr, hex(&resp)));
+    sc.op("srv-dump 0");
+    // … and P's datagram is surfaced a second time
+    sc.op(&format!("srv-rx 0 {} {}", addr, hex(&p)));
+    sc.op("srv-dump 0");
+}
+
+fn known_ops(case: usize) -> Vec<String> {
+    fixed_ops(case, known_script)
+}
+
 /// the op list of a regression case: the script is run once against a private implementation
 /// world only to obtain the datagrams it forwards (an unwind ends the list at the failing op)
 fn regress_ops(case: usize) -> Vec<String> {
+    fixed_ops(case, regress_script)
+}
+
+fn fixed_ops(case: usize, script: fn(usize, &mut dyn FnMut(&str) -> String)) -> Vec<String> {
     let mut world = NcWorld::default();
     let mut ops: Vec<String> = vec![];
     let mut dead = false;
@@ -1905,7 +1992,7 @@ fn regress_ops(case: usize) -> Vec<String> {
                 }
             }
         };
-        regress_script(case, &mut f);
+        script(case, &mut f);
     }
     ops
 }
@@ -1924,6 +2011,16 @@ fn any_op(t: &Trace, prefix: &str) -> bool {
 
 pub fn profiles() -> Vec<Profile> {
     vec![
+        Profile {
+            name: "nc-known",
+            props: &["C04"],
+            cases: |_| 1,
+            new_world,
+            script: |_, _, _| {},
+            nontrivial: |_| true,
+            keep: keep_setup,
+            fixed: Some(known_ops),
+        },
         Profile {
             name: "nc-regress",
             props: &["C07", "C17", "C05", "C10", "C18", "C16"],
@@ -2077,7 +2174,7 @@ fn dump_diff(a: &str, b: &str) -> String {
     v.join("; ")
 }
 
-fn hostile_noop(ops: &[String], outs: &[String], pending_recv_only: bool) -> Option<OracleFail> {
+fn hostile_noop(ops: &[String], outs: &[String]) -> Option<OracleFail> {
     for i in 0..ops.len() {
         if ops[i] != "note hostile" && ops[i] != "note stale" {
             continue;
@@ -2095,17 +2192,11 @@ fn hostile_noop(ops: &[String], outs: &[String], pending_recv_only: bool) -> Opt
             continue; // reported by the no-unwind oracle
         }
         if outs[j] != "none" {
-            if pending_recv_only {
-                continue;
-            }
             return fail(j, &format!("hostile-answered:{}", kind), format!("unauthentic datagram was answered with `{}`", trunc_s(&outs[j], 80)));
         }
         if i >= 1 && j + 1 < ops.len() && j + 1 < outs.len() && ops[i - 1] == ops[j + 1] && ops[i - 1].contains("-dump ") {
-            let (da, db) = if pending_recv_only {
-                (pending_recv(&outs[i - 1]), pending_recv(&outs[j + 1]))
-            } else {
-                (without_pending_recv(&outs[i - 1]), without_pending_recv(&outs[j + 1]))
-            };
+            // the receive time of a pending (half-open) entry is not observable through the API
+            let (da, db) = (without_pending_recv(&outs[i - 1]), without_pending_recv(&outs[j + 1]));
             if da != db {
                 let d = t.last().and_then(|h| p_hex(h)).unwrap_or_default();
                 let field = dump_diff(&outs[i - 1], &outs[j + 1]);
@@ -2151,14 +2242,6 @@ fn pending_section(d: &str) -> Option<(usize, usize)> {
     }
 }
 
-/// the `recv=` values of the pending clients of a server dump
-fn pending_recv(d: &str) -> String {
-    match pending_section(d) {
-        Some((a, b)) => d[a..b].split(',').filter(|f| f.starts_with("recv=")).collect::<Vec<_>>().join(","),
-        None => String::new(),
-    }
-}
-
 /// a server dump without the `recv=` values of its pending clients (client dumps are returned as they are)
 fn without_pending_recv(d: &str) -> String {
     match pending_section(d) {
@@ -2171,12 +2254,7 @@ fn without_pending_recv(d: &str) -> String {
 }
 
 fn oracle_hostile_noop(ops: &[String], outs: &[String]) -> Option<OracleFail> {
-    hostile_noop(ops, outs, false)
-}
-
-/// the same for the receive time stamps of pending (half-open) connections, judged separately
-fn oracle_hostile_noop_pending(ops: &[String], outs: &[String]) -> Option<OracleFail> {
-    hostile_noop(ops, outs, true)
+    hostile_noop(ops, outs)
 }
 
 // ----- C13: every produced datagram fits -------------------------------------------------------
@@ -2584,7 +2662,6 @@ fn compact_addrs(s: &str) -> String {
 }
 
 fn oracle_roundtrip(ops: &[String], outs: &[String]) -> Option<OracleFail> {
-    let mut short17: Option<OracleFail> = None;
     for i in 0..ops.len() {
         if ops[i] != "note rt" || i + 2 >= ops.len() || i + 2 >= outs.len() {
             continue;
@@ -2604,18 +2681,6 @@ fn oracle_roundtrip(ops: &[String], outs: &[String]) -> Option<OracleFail> {
                 }
                 let want = format!("ok {} {} rp=", seq, a[5..].join(" "));
                 if !ob.starts_with(&want) {
-                    // an empty-bodied packet with sequence 0 encodes to 17 bytes, below the decoder's minimum of 18:
-                    // its own class, reported only when nothing else is wrong in the trace
-                    if ha.len() == 34 && ob.starts_with("err:PacketTooSmall") {
-                        if short17.is_none() {
-                            short17 = fail(
-                                i + 2,
-                                "roundtrip:packet:17-byte-encoding-rejected",
-                                format!("`{}` with sequence 0 encodes to 17 bytes, which decode rejects as PacketTooSmall", a[5]),
-                            );
-                        }
-                        continue;
-                    }
                     return fail(i + 2, &format!("roundtrip:packet:{}", a[5]), format!("encode/decode round trip lost the packet: got `{}`", trunc_s(ob, 60)));
                 }
             }
@@ -2653,7 +2718,7 @@ fn oracle_roundtrip(ops: &[String], outs: &[String]) -> Option<OracleFail> {
             _ => {}
         }
     }
-    short17
+    None
 }
 
 // ----- C04: surfaced payloads ----------------------------------------------------------------------------------
@@ -2663,8 +2728,11 @@ fn oracle_payloads(ops: &[String], outs: &[String]) -> Option<OracleFail> {
     let mut by_client: HashMap<Vec<u8>, (String, u64, String)> = HashMap::new();
     let mut by_server: HashMap<Vec<u8>, (String, u64, String)> = HashMap::new();
     let mut cli_id: HashMap<String, (u64, usize)> = HashMap::new();
-    let mut surfaced_srv: HashSet<(String, Vec<u8>)> = HashSet::new();
-    let mut surfaced_cli: HashSet<(String, usize, Vec<u8>)> = HashSet::new();
+    // (server, datagram) -> session (op index of the `connected` event) in which it was surfaced
+    let mut surfaced_srv: HashMap<(String, Vec<u8>), usize> = HashMap::new();
+    // (client handle, datagram) -> client instance (op index of its `cli-new`)
+    let mut surfaced_cli: HashMap<(String, Vec<u8>), usize> = HashMap::new();
+    let mut session: HashMap<(String, u64), usize> = HashMap::new();
     let mut expect = false;
     walk(ops, outs, &mut |i, t, out, input, em| {
         let expected = expect;
@@ -2694,6 +2762,9 @@ fn oracle_payloads(ops: &[String], outs: &[String]) -> Option<OracleFail> {
             }
             "srv-rx" if t.len() == 4 => {
                 let o = toks(out);
+                if o.len() == 5 && o[0] == "connected" {
+                    session.insert((t[1].to_string(), p_u64(o[1]).unwrap_or(0)), i);
+                }
                 if o.len() == 3 && o[0] == "payload" {
                     let d = input?;
                     match by_client.get(d) {
@@ -2702,8 +2773,16 @@ fn oracle_payloads(ops: &[String], outs: &[String]) -> Option<OracleFail> {
                             return fail(i, "surfaced-not-generated:server", format!("server surfaced a payload for client {} that the peer never generated in this datagram", o[1]));
                         }
                     }
-                    if !surfaced_srv.insert((t[1].to_string(), d.clone())) {
-                        return fail(i, "surfaced-twice:server", format!("one generated datagram was surfaced twice by the server (client {})", o[1]));
+                    let cur = session.get(&(t[1].to_string(), p_u64(o[1]).unwrap_or(0))).cloned().unwrap_or(0);
+                    if let Some(prev) = surfaced_srv.insert((t[1].to_string(), d.clone()), cur) {
+                        if prev == cur {
+                            return fail(i, "surfaced-twice:server", format!("one generated datagram was surfaced twice by the server within one session (client {})", o[1]));
+                        }
+                        return fail(
+                            i,
+                            "cross-session-replay",
+                            format!("a datagram surfaced in an earlier session of client {} (connected at op {}) was surfaced again after the session was re-established with the same connect token (connected at op {})", o[1], prev, cur),
+                        );
                     }
                 } else if expected && out != "panic" && out != "dead" {
                     return fail(i, "genuine-not-surfaced:server", format!("a fresh in-window genuine payload datagram was not surfaced: `{}`", trunc_s(out, 40)));
@@ -2720,8 +2799,11 @@ fn oracle_payloads(ops: &[String], outs: &[String]) -> Option<OracleFail> {
                             return fail(i, "surfaced-not-generated:client", format!("client {} surfaced a payload the server never generated for it in this datagram", t[1]));
                         }
                     }
-                    if !surfaced_cli.insert((t[1].to_string(), at, d.clone())) {
-                        return fail(i, "surfaced-twice:client", format!("one generated datagram was surfaced twice by client {}", t[1]));
+                    if let Some(prev) = surfaced_cli.insert((t[1].to_string(), d.clone()), at) {
+                        if prev == at {
+                            return fail(i, "surfaced-twice:client", format!("one generated datagram was surfaced twice by client {}", t[1]));
+                        }
+                        return fail(i, "cross-session-replay", format!("client {} surfaced a datagram that an earlier client instance with the same token had surfaced", t[1]));
                     }
                 } else if expected && out != "panic" && out != "dead" {
                     return fail(i, "genuine-not-surfaced:client", format!("a fresh in-window genuine payload datagram was not surfaced: `{}`", trunc_s(out, 40)));
@@ -2902,12 +2984,13 @@ fn oracle_timeouts(ops: &[String], outs: &[String]) -> Option<OracleFail> {
 /// C18 (progress): where the script knows a handshake must complete, it does
 fn oracle_expect_connected(ops: &[String], outs: &[String]) -> Option<OracleFail> {
     for i in 0..ops.len() {
-        if ops[i] != "note expect-connected" || i + 1 >= ops.len() || i + 1 >= outs.len() {
+        if !(ops[i] == "note expect-connected" || ops[i].starts_with("note expect-connected:")) || i + 1 >= ops.len() || i + 1 >= outs.len() {
             continue;
         }
+        let sig = ops[i].strip_prefix("note expect-connected:").unwrap_or("valid-response-not-connected");
         let o = &outs[i + 1];
         if !o.starts_with("connected ") && o != "panic" && o != "dead" {
-            return fail(i + 1, "valid-response-not-connected", format!("a valid connection response with a free slot below the limit was answered `{}`", trunc_s(o, 40)));
+            return fail(i + 1, sig, format!("a valid connection response with a free slot below the limit was answered `{}`", trunc_s(o, 40)));
         }
     }
     None
@@ -2919,7 +3002,6 @@ pub fn oracles() -> Vec<Oracle> {
     vec![
         Oracle { prop: "C07", name: "nc-no-unwind", engines: NC_ALL, check: oracle_no_panic },
         Oracle { prop: "C07", name: "nc-unauthentic-noop", engines: &["nc-session", "nc-hostile", "nc-attacker", "nc-regress"], check: oracle_hostile_noop },
-        Oracle { prop: "C07", name: "nc-unauthentic-noop-pending", engines: &["nc-session", "nc-hostile", "nc-attacker", "nc-regress"], check: oracle_hostile_noop_pending },
         Oracle { prop: "C13", name: "nc-datagram-size", engines: NC_ALL, check: oracle_size },
         Oracle { prop: "C19", name: "nc-no-amplification", engines: NC_ALL, check: oracle_amplification },
         Oracle { prop: "C10", name: "nc-connection-table", engines: &["nc-handshake", "nc-attacker", "nc-session", "nc-hostile", "nc-regress"], check: oracle_table },
@@ -2927,7 +3009,7 @@ pub fn oracles() -> Vec<Oracle> {
         Oracle { prop: "C17", name: "nc-nonce-unique", engines: &["nc-handshake", "nc-session", "nc-hostile", "nc-regress"], check: oracle_nonce },
         Oracle { prop: "C17", name: "nc-tampered-rejected", engines: &["nc-wire", "nc-regress"], check: oracle_mutated_rejected },
         Oracle { prop: "C16", name: "nc-wire-roundtrip", engines: &["nc-wire"], check: oracle_roundtrip },
-        Oracle { prop: "C04", name: "nc-payloads-authentic-once", engines: &["nc-session", "nc-handshake", "nc-hostile"], check: oracle_payloads },
+        Oracle { prop: "C04", name: "nc-payloads-authentic-once", engines: &["nc-session", "nc-handshake", "nc-hostile", "nc-known"], check: oracle_payloads },
         Oracle { prop: "C18", name: "nc-handshake-completes", engines: &["nc-regress", "nc-attacker"], check: oracle_expect_connected },
         Oracle { prop: "C18", name: "nc-timeouts-exact", engines: &["nc-handshake", "nc-session", "nc-hostile", "nc-regress"], check: oracle_timeouts },
     ]
